@@ -187,3 +187,13 @@ Theorem to_json_default_date_is_source : forall fmt dumps_md c tid now g,
   gen_to_json fmt dumps_md c tid now g None = gen_to_json fmt dumps_md c tid now g (Some now).
 Proof. exact GenBridgeJsonProofs.to_json_default_date_is_source. Qed.
 Print Assumptions to_json_default_date_is_source.
+
+(* the streamed variant gen_to_json_direct is regenerated as well; no bridge for all tables yet.
+   On the witness table its text reads back as the hand-written streamed tree, key order included *)
+Example to_json_direct_witness :
+  match gen_to_json_direct ex_fmt ex_dumps ex_table (K "None") (K "x") (str_of_json (j_genby ex_table))
+              (Some (str_of_json (j_date ex_table))) with
+  | ROk t => parse_json ex_scan 40 t = Some (to_json_tree_direct ex_table (K "None"))
+  | RErr _ => False
+  end.
+Proof. exact GenBridgeJsonProofs.gen_direct_ex_table. Qed.
